@@ -56,11 +56,7 @@ pub fn generate(seed: u64, index: u64, thorough: bool) -> Scenario {
         ModelKind::Hand
     };
     // badly scaled bases need several columns: the far regime prefers the larger models
-    let sizes = if rng.chance(if !hostile { 0.6 } else if thorough { 0.3 } else { 0.15 }) {
-        LARGE
-    } else {
-        SMALL
-    };
+    let sizes = pick_sizes(&mut rng, thorough, if !hostile { 0.6 } else if thorough { 0.3 } else { 0.15 });
     let parallel = rng.chance(0.2);
     let noise = *rng.pick(&[0.0, 1e-3, 5e-2, 0.3]);
     let (mut sc, d) = base_scenario(&mut rng, "C08", seed, index, kind, sizes, parallel, Start::Mid, noise);
